@@ -222,3 +222,31 @@ def histories(draw, spec, min_ops=6, max_ops=20, n_events=3, delays=False, advan
             ops.append(['step', draw(gvs(n, p_all, p_none))])
     ops.append(['step', draw(gvs(n, p_all, p_none))])
     return ops
+
+
+@st.composite
+def with_contracts(draw, spec, p=0.5, max_each=2):
+    """attach abstract contract annotations c_pre/c_post/c_inv (lists of unique condition ids)"""
+    cid = [0]
+
+    def conds():
+        out = []
+        for _ in range(draw(st.integers(0, max_each))):
+            cid[0] += 1
+            out.append(cid[0])
+        return out
+    for o in spec['states'] + spec['transitions']:
+        if draw(st.floats(0, 1)) < p:
+            o['c_pre'], o['c_post'], o['c_inv'] = conds(), conds(), conds()
+        else:
+            o['c_pre'], o['c_post'], o['c_inv'] = [], [], []
+    return spec
+
+
+@st.composite
+def with_time_guards(draw, spec, p=0.3, ds=(0, 0.25, 1, 2, 5)):
+    """mark some transitions with a time guard ('after'|'idle', d) instead of a table guard"""
+    for t in spec['transitions']:
+        if draw(st.floats(0, 1)) < p:
+            t['tguard'] = [draw(st.sampled_from(['after', 'idle'])), draw(st.sampled_from(ds))]
+    return spec
